@@ -1,7 +1,7 @@
 (* Correspondence obligations for C13: the model's per-thread results and parse counts on the
    (configuration, program, schedule) triples that the harness drove the real goroutines through. *)
 From Coq Require Import ZArith NArith Arith Bool List.
-From PcoreV Require Import Model.Base Model.Conc Model.ConcLazy Model.ConcReg Model.ConcDisc Model.ConcNs Model.ConcInit.
+From PcoreV Require Import Model.Base Model.Conc Model.ConcLazy Model.ConcReg Model.ConcDisc Model.ConcNs Model.ConcNsChain Model.ConcInit.
 Import ListNotations.
 
 Definition val_eqb (a b : val) : bool :=
@@ -145,6 +145,22 @@ Definition ns_check (c : ns_case) : bool :=
   let st := nexec KeyMapped cfg p s in
   nall_done st (length p) && Nat.eqb (length o) (length p) && ns_threads (ns_log st) 0 o.
 Definition ns_mismatches (cs : list ns_case) : list N := failing ns_check cs.
+
+
+(* ---- the same loader inside a chain of parented loaders (Model/ConcNsChain.v): loads and HasEntry questions through
+   any loader of static <- A.. <- M <- C..; per thread the results in program order and the files instantiated *)
+Definition chain_case := (ccfg * cprog * list nat * list nobs)%type.
+Fixpoint chain_threads (st : cstate) (t : nat) (os : list nobs) : bool :=
+  match os with
+  | [] => true
+  | o :: os' => list_eqb nres_eqb (cresults_of t (cs_log st)) (fst o) &&
+                Nat.eqb (nparses_by t (ns_log (cs_in st))) (snd o) && chain_threads st (S t) os'
+  end.
+Definition chain_check (c : chain_case) : bool :=
+  let '(cfg, p, s, o) := c in
+  let st := cexec cfg p s in
+  call_done st (length p) && Nat.eqb (length o) (length p) && chain_threads st 0 o.
+Definition chain_mismatches (cs : list chain_case) : list N := failing chain_check cs.
 
 
 (* ---- the first initialization of the runtime entered by n goroutines of a fresh process (Model/ConcInit.v, the code:
